@@ -7,7 +7,7 @@ import shutil
 import time
 from concurrent.futures import ThreadPoolExecutor
 
-from common import (SPEC, XSV, ToolError, log, model_check, scratch, sh, tlc)
+from common import (SPEC, XSV, ToolError, build_xs_bin, log, model_check, scratch, sh, tlc)
 
 PROPS = ["C01", "C05", "C06", "C07", "C08", "C09", "C12", "C20"]
 
@@ -85,10 +85,21 @@ def apalache_inductive():
     return res
 
 
-def run(tier, seed, regress=True, http=False):
-    cfg = (HTTP_TIERS if http else TIERS)[tier]
+# through the real `xs` binary: one child process per operation (about 15 ms each), hence fewer behaviours
+CLI_TIERS = {
+    "quick": dict(mc=["MC_store_quick_mixed.cfg"], sim=50, sim_depth=60, rnd=110, rnd_ops=14, probes=2, chunk=80),
+    "thorough": dict(mc=["MC_store_quick_mixed.cfg"], sim=500, sim_depth=80, rnd=1500, rnd_ops=20, probes=3, chunk=250),
+}
+
+
+def run(tier, seed, regress=True, http=False, cli=False):
+    cfg = (CLI_TIERS if cli else HTTP_TIERS if http else TIERS)[tier]
     t0 = time.time()
-    gname = "http" if http else "store"
+    gname = "cli" if cli else "http" if http else "store"
+    http = http or cli
+    renv = {}
+    if cli:
+        renv["XSV_CLI"] = build_xs_bin()
     res = {"group": gname, "tier": tier, "seed": seed}
     # (1) the design, as modelled
     mcs = [model_check("MCXsStore.tla", c) for c in cfg["mc"]]
@@ -116,9 +127,9 @@ def run(tier, seed, regress=True, http=False):
                         nreg += 1
         all_behs = [json.loads(l) for l in open(behs)]
         t1 = time.time()
-        p = sh([XSV, "store-replay", "--in", behs, "--out", os.path.join(d, "trace"), "--jobs", "12",
+        p = sh([XSV, "store-replay", "--in", behs, "--out", os.path.join(d, "trace"), "--jobs", "32" if cli else "12",
                 "--probes", str(cfg["probes"]), "--chunk", str(cfg["chunk"])] + (["--http"] if http else []), timeout=3000,
-               env={"XSV_SCRATCH": d})
+               env=dict(renv, XSV_SCRATCH=d))
         stats = json.loads(p.stdout.strip().splitlines()[-1])
         t2 = time.time()
         files = sorted(glob.glob(os.path.join(d, "trace.*")), key=lambda s: int(s.rsplit(".", 1)[1]))
@@ -126,6 +137,11 @@ def run(tier, seed, regress=True, http=False):
             outs = list(ex.map(validate, files))
         t3 = time.time()
         viols, known, states = [], set(), 0
+        if cli:
+            # behaviours cut short because the tool printed nothing after a successful call (see harness/src/storerun.rs)
+            res["cli_output_lost"] = sum(1 for fn in files for l in open(fn) if '"cli_output_lost"' in l)
+            if res["cli_output_lost"] > max(5, stats["behaviours"] // 10):
+                raise ToolError(f"{res['cli_output_lost']} behaviours lost the tool's output: the command line path is not usable")
         for fidx, (v, verdict, dist) in enumerate(outs):
             states += dist
             known.update(verdict["known"])
